@@ -1,4 +1,5 @@
 import Cardutil.Lemmas.Pin
+import Cardutil.Lemmas.Des
 /-
   C14 — PVV, key check value and key-part combination match the published algorithms.
 
@@ -186,6 +187,57 @@ theorem C14_combine_two (a b : List Nat) (ha : a.length = 32 ∧ ∀ n ∈ a, n 
 /-- the key check value is the leading hex digits of the encryption of zeros under the key -/
 theorem C14_kcv (enc : Bytes → Bytes) (n : Nat) :
     kcv enc n = ((bytesToNibbles (enc (List.replicate 16 0))).map hexChar).take n := rfl
+
+/-! ### the PVV with Triple DES itself as the cipher -/
+
+open Cardutil.Des (tdesFn)
+
+/-- C14, PVV, with the cipher inside the model: for every PVV key of 8, 16 or 24 bytes, every PIN of at least four
+    digits, every PAN of at least twelve digits and every key index digit, the PVV is defined and consists of exactly
+    four decimal digits — the two-scan decimalisation of the Triple DES encryption of the TSP -/
+theorem C14_pvv_tdes (key : Bytes) (hk : key.length = 8 ∨ key.length = 16 ∨ key.length = 24)
+    (pan idx pin : Text) (hpan : AllDigits pan) (hidx : AllDigits idx) (hpin : AllDigits pin)
+    (hl : 12 ≤ pan.length) (hi : idx.length = 1) (hp : 4 ≤ pin.length) :
+    ∃ v, pvv (tdesFn key) pin idx pan = .ok v ∧ v.length = 4 ∧ AllDigits v := by
+  obtain ⟨block, hbl, hv⟩ := C14_pvv_defined (tdesFn key) pan idx pin hpan hidx hpin hl hi hp
+  refine ⟨_, hv, ?_⟩
+  -- the cipher returns eight bytes
+  have hsplit : ∃ k1 k2 k3, Des.splitKey key = some (k1, k2, k3) := by
+    unfold Des.splitKey
+    rcases hk with h | h | h <;> simp [h]
+  obtain ⟨k1, k2, k3, hs⟩ := hsplit
+  have hct : Des.tdesEcb false key block = .ok ((Des.blocks8 block).flatMap (Des.encB k1 k2 k3)) := by
+    have := Des.ecb_unfold false key block k1 k2 k3 hs (by omega)
+    simpa using this
+  have hfn : tdesFn key block = (Des.blocks8 block).flatMap (Des.encB k1 k2 k3) := by
+    unfold tdesFn; rw [hct]
+  have hlen : (tdesFn key block).length = 8 := by
+    rw [hfn]
+    obtain ⟨_, hn, _⟩ := Des.blocks8_spec 1 block (by omega)
+    rw [Des.flatMap_length8 _ _ (fun x _ => Des.encB_length k1 k2 k3 x), hn]
+  have hbytes : ∀ x ∈ tdesFn key block, x < 256 := by
+    rw [hfn]; exact Des.tdesEcb_isBytes false key block _ hct
+  have hnl : (bytesToNibbles (tdesFn key block)).length = 16 := by
+    have : ∀ (b : Bytes), (bytesToNibbles b).length = 2 * b.length := by
+      intro b
+      induction b with
+      | nil => rfl
+      | cons x xs ih => simp only [bytesToNibbles, List.flatMap_cons, List.length_append] at ih ⊢; simp [ih]; omega
+    rw [this, hlen]
+  have hnlt : ∀ n ∈ bytesToNibbles (tdesFn key block), n < 16 := by
+    intro n hn
+    simp only [bytesToNibbles, List.mem_flatMap] at hn
+    obtain ⟨x, hx, hm⟩ := hn
+    have := hbytes x hx
+    simp at hm
+    omega
+  have := C14_decimalise _ hnl hnlt
+  exact ⟨this.1, this.2.1⟩
+
+-- the module documentation's value: PIN 1234, PAN 1111222233334444, key index 1, key 00 x 16 -> PVV 6264
+#guard pvv (tdesFn (List.replicate 16 0)) [49,50,51,52] [49] [49,49,49,49,50,50,50,50,51,51,51,51,52,52,52,52] == .ok [54, 50, 54, 52]
+-- the key check value of the all-zero double-length key: 8ca64d
+#guard kcv (tdesFn (List.replicate 16 0)) 6 == [56, 99, 97, 54, 52, 100]
 
 /-- non-vacuity / known answer: ct = 0FFFFFFFFFFF5F1A needs the second scan for two digits -/
 example : decimalise [0, 15, 15, 15, 15, 15, 15, 15, 15, 15, 15, 15, 5, 15, 1, 10] = [48, 53, 49, 53] := by decide
